@@ -78,9 +78,8 @@ class Crowd(Part):
             runs.append(tlc.run("Selection", MC_CFG % (3, "0, 1", 4), ctx.scratch, workers=16, name="Selection-mc4-3obj",
                                 timeout=3000))
         # TLAPS side-car (not the deciding mechanism): rank-first survivor selection is elitist for populations of any size
-        proved = tlc.tlapm("proofs/SelectionLaws.tla", ctx.scratch)
-        ctx.notes.append("tlapm proofs/SelectionLaws.tla: %d obligations proved (rank first => elitist, generational elitism, a best design "
-                         "survives; arbitrary population size)" % proved)
+        tlc.sidecar(ctx, "tlapm proofs/SelectionLaws.tla (rank first => elitist, generational elitism, a best design survives; arbitrary "
+                    "population size)", tlc.tlapm, "proofs/SelectionLaws.tla", ctx.scratch)
         return runs
 
     def cases(self, ctx):
